@@ -287,7 +287,7 @@ static void settle(Ctx &c, World &w, Model &E, const std::set<int> &W, const std
   check_freed(c, w, gone, op);
   check_payload(c, w, op);
   for (auto &cm : w.metas) VP_CHECK(c, cm.released <= 1, tagAt("value-released", op).c_str(), "after %s: counting value #%d was released %d times", op, cm.serial, cm.released);
-  c.logf("      forest: %s", w.m.show().c_str());
+  if (c.verbose()) c.logf("      forest: %s", w.m.show().c_str());
 }
 
 // ---------------------------------------------------------------------------------------------------------------
@@ -319,7 +319,7 @@ static int newNode(Ctx &c, World &w) {
   if (named) VP_CHECK(c, mpt_identifier_set(&p->ident, name.c_str(), (int)name.size()), "new-name", "mpt_identifier_set refused a name of %zu bytes", name.size());
   MNode mn;
   mn.p = p; mn.live = true; mn.named = named; mn.name = name;
-  switch (c.weighted({2, 6, 1, 3})) {
+  switch (c.weighted({3, 8, 1, 4})) {
     case 0: break;
     case 1: mn.vkind = 1; mn.cm = w.newMeta((int)c.range(0, 3), true, 0); break;
     case 2: mn.vkind = 1; mn.cm = w.newMeta((int)c.range(0, 3), false, 0); c.label("value:unclonable"); break;
@@ -342,7 +342,7 @@ static int newNode(Ctx &c, World &w) {
   w.m.n.push_back(mn);
   w.m.tops.push_back({s});
   w.created++;
-  c.logf("  new -> node %d name=%s value=%s", s, named ? (name.size() > 8 ? fmtstr("%c x %zu", name[0], name.size()).c_str() : name.c_str()) : "(none)",
+  if (c.verbose()) c.logf("  new -> node %d name=%s value=%s", s, named ? (name.size() > 8 ? fmtstr("%c x %zu", name[0], name.size()).c_str() : name.c_str()) : "(none)",
          mn.vkind == 0 ? "none" : mn.vkind == 1 ? fmtstr("count#%d payload %d%s", mn.cm->serial, mn.cm->payload, mn.cm->clonable ? "" : " unclonable").c_str() : fmtstr("text[%zu]", mn.text.size()).c_str());
   return s;
 }
@@ -356,8 +356,17 @@ static int takeDetached(Ctx &c, World &w, const char *&how) {
   // leave at least one other node as target
   if (!d.empty() && w.m.liveSlots().size() >= 2) { how = "detached"; return pickOf(c, d); }
   if (w.created < MaxCreated) { how = "fresh"; return newNode(c, w); }
-  how = "none";
-  return -1;
+  std::vector<int> live = w.m.liveSlots();
+  if (live.size() < 2) { how = "none"; return -1; }
+  // population used up and everything is linked: take a node out of its list first
+  int n = pickOf(c, live);
+  c.logf("  node_unlink(%d)   (to get a detached node)", n);
+  mpt_node_unlink(w.m.n[n].p);
+  Model E = w.m;
+  E.detach(n);
+  settle(c, w, E, std::set<int>(), std::vector<int>(), "node_unlink");
+  how = "unlinked";
+  return n;
 }
 
 static std::vector<int> targetsOutside(const Model &m, int n) {
@@ -483,7 +492,22 @@ static void run(Ctx &c) {
     size_t op = c.weighted({6, 8, 8, 8, 6, 6, 8, 8, 4, 4, 3, 3, 2, 2, 3, 2});
     switch (op) {
       case 0: {  // new
-        if (w.created >= MaxCreated) { c.label("skip:population"); break; }
+        if (w.created >= MaxCreated) {  // population used up: release a detached subtree instead
+          std::vector<int> d;
+          for (int s : live) if (m.detached(s)) d.push_back(s);
+          if (d.empty()) { c.label("skip:population"); break; }
+          int n = pickOf(c, d);
+          std::vector<int> gone;
+          m.subtree(n, gone);
+          c.logf("  node_destroy(%d) detached, %zu nodes", n, gone.size());
+          node *r = mpt_node_destroy(m.n[n].p);
+          VP_CHECK(c, r == 0, "return@node_destroy", "mpt_node_destroy of a detached node refused");
+          E.removeFromList(n);
+          settle(c, w, E, none, gone, "node_destroy");
+          c.label("op:destroy");
+          if (gone.size() > 1) c.label("destroy:subtree");
+          break;
+        }
         newNode(c, w);
         E = m;
         settle(c, w, E, none, nobody, "new");
@@ -498,6 +522,9 @@ static void run(Ctx &c) {
         std::vector<int> tg = targetsOutside(m, n);
         if (tg.empty()) { c.label("skip:no-target"); break; }
         int first = pickOf(c, tg), pos = drawPos(c);
+        // by name: `first` is the first node of the list (mpt_node_insert hands in parent->children, nothing in /repo
+        // calls mpt_node_add); with a later node and namesakes only in front of it the by-name search finds no anchor
+        if (op == 2) first = m.listOfC(first)[0];
         const char *opn = op == 1 ? "gnode_add" : "node_add";
         c.logf("  %s(first=%d, pos=%d, node=%d)", opn, first, pos, n);
         node *r = op == 1 ? mpt_gnode_add(m.n[first].p, pos, m.n[n].p) : mpt_node_add(m.n[first].p, pos, m.n[n].p);
@@ -590,13 +617,13 @@ static void run(Ctx &c) {
         std::vector<int> D = downer >= 0 ? m.n[downer].kids : m.tops[dcomp];
         node *fromLocal = m.n[S[0]].p;
         node **from = sowner >= 0 ? &m.n[sowner].p->children : &fromLocal;
-        c.logf("  node_move(from=%s %s, dst=%s %s)", sowner >= 0 ? fmtstr("children of %d", sowner).c_str() : "top-level list", showv(S).c_str(),
+        if (c.verbose()) c.logf("  node_move(from=%s %s, dst=%s %s)", sowner >= 0 ? fmtstr("children of %d", sowner).c_str() : "top-level list", showv(S).c_str(),
                downer >= 0 ? fmtstr("children of %d", downer).c_str() : "top-level list", showv(D).c_str());
         size_t moved = mpt_node_move(from, m.n[D[0]].p);
         std::set<int> W;
         bool deep = false;
         modelMove(E, S, D[0], W, deep);
-        c.logf("      moved %zu, expected forest %s", moved, E.show().c_str());
+        if (c.verbose()) c.logf("      moved %zu, expected forest %s", moved, E.show().c_str());
         // the remaining source list must still be addressed by *from (mpt_parse_node clears what is left through it)
         if (sowner < 0) {
           std::vector<int> rest;
@@ -627,7 +654,7 @@ static void run(Ctx &c) {
           if (!clonable(m, s, kind != 0)) ok = false;
         }
         if (live.size() + total > MaxLive) { c.label("skip:clone-too-big"); break; }
-        c.logf("  %s(%d)  sources %s, %zu nodes, depth %d, %s", opn, n, showv(srcs).c_str(), total, depth, ok ? "all values clonable" : "holds a value that refuses to clone");
+        if (c.verbose()) c.logf("  %s(%d)  sources %s, %zu nodes, depth %d, %s", opn, n, showv(srcs).c_str(), total, depth, ok ? "all values clonable" : "holds a value that refuses to clone");
         size_t metasBefore = w.metas.size();
         node *q = kind == 0 ? mpt_node_clone(m.n[n].p) : kind == 1 ? mpt_list_clone(m.n[n].p) : mpt_tree_clone(m.n[n].p);
         if (!ok) {
@@ -662,7 +689,7 @@ static void run(Ctx &c) {
         int n = pickOf(c, live);
         std::vector<int> gone;
         for (int k : m.n[n].kids) m.subtree(k, gone);
-        c.logf("  node_clear(%d) releases %s", n, showv(gone).c_str());
+        if (c.verbose()) c.logf("  node_clear(%d) releases %s", n, showv(gone).c_str());
         mpt_node_clear(m.n[n].p);
         E.n[n].kids.clear();
         settle(c, w, E, none, gone, "node_clear");
@@ -729,15 +756,17 @@ static void run(Ctx &c) {
         break;
       }
       case 13: {  // relink: no-op on a sound tree; restores prev/parent below the node from children/next
-        int n = pickOf(c, live);
         bool spoil = c.flip();
+        std::vector<int> owners;
+        for (int s : live) if (!m.n[s].kids.empty()) owners.push_back(s);
+        int n = (spoil && !owners.empty()) ? pickOf(c, owners) : pickOf(c, live);
         std::vector<int> below;
         for (int k : m.n[n].kids) m.subtree(k, below);
         size_t spoilt = 0;
         if (spoil) {
           for (int s : below) {
             node *p = m.n[s].p;
-            unsigned bits = (unsigned)c.range(0, 3);
+            unsigned bits = (unsigned)c.range(0, 3) | (below.size() == 1 ? 1u : 0u);
             if (bits & 1) { p->parent = c.flip() ? 0 : m.n[n].p == p->parent ? 0 : m.n[n].p; ++spoilt; }
             if ((bits & 2) && p->prev) { p->prev = 0; ++spoilt; }
           }
